@@ -36,10 +36,10 @@ def main():
     tests_ok = "FAILED" not in out_t and "failed; " in out_t and all(" 0 failed" in l for l in out_t.splitlines() if l.startswith("test result"))
     ran.append("with change: cargo test --offline -> %s" % ("all passed" if tests_ok else "FAILURES: " + out_t[-300:]))
     rc_h, _ = sh("CARGO_TARGET_DIR=%s/target cargo build --offline --features verif-hooks 2>&1 | tail -1" % wt, cwd=wt)
-    rc_d, out_d = sh("sh ./run.sh", cwd=mdir) if os.path.exists(os.path.join(mdir, "run.sh")) else (None, "no run.sh")
+    rc_d, out_d = sh("bash ./run.sh", cwd=mdir) if os.path.exists(os.path.join(mdir, "run.sh")) else (None, "no run.sh")
     ran.append("with change: demonstration exit status %s" % rc_d)
     sh("git checkout -- src", cwd=wt)
-    rc_c, out_c = sh("sh ./run.sh", cwd=mdir) if os.path.exists(os.path.join(mdir, "run.sh")) else (None, "no run.sh")
+    rc_c, out_c = sh("bash ./run.sh", cwd=mdir) if os.path.exists(os.path.join(mdir, "run.sh")) else (None, "no run.sh")
     ran.append("without change: demonstration exit status %s" % rc_c)
     confirmed = tests_ok and rc_d not in (0, None) and rc_c == 0
     print("confirmed" if confirmed else "NOT CONFIRMED", ran)
